@@ -24,7 +24,8 @@ META = {
             "shifted coupling, with the coupling shift given by the RGE series, has ln-ratio valuation >= n in the joint scaling "
             "(Laurent series over F_p), for n = 1..4, and the exponentiated shift likewise. (3) STRUCTURE: Operator.mu2 (which "
             "couplings enter a segment) follows the documented table over (scheme, threshold flag); the couplings' matching "
-            "scales are shifted by xi^2 only in the exponentiated scheme (runner.commons.couplings).",
+            "scales are shifted by xi^2 only in the exponentiated scheme (runner.commons.couplings). (3b) the identity shortcut of Operator.compute is taken only for "
+            "coinciding scales and never on the last operator of the expanded scheme (where K(a, ln xi^2) != 1 from NLO on, also when the coupling distance vanishes).",
     "note": "The O(a_s^n) law of complete operators (quadrature, interpolation) is a runtime statement; what is proved is the law "
             "for the integrand in the non-singlet closed form and the exact unit-ratio identity for every kernel.",
     "technique": "differential partial evaluation + polynomial identity testing + Laurent-series valuation; truth table by exhaustive PE",
@@ -239,6 +240,40 @@ def run(chk):
     pe2 = PE(src)
     n_tab = mu2_table(chk, src, pe2)
     chk.floor("mu2 table rows", n_tab, 6)
+    # (3b) the identity shortcut of Operator.compute: in the expanded scheme the last (non-threshold) operator is K(a, ln xif2) . E;
+    # from NLO on K != 1, so the shortcut may never be taken there - also when the COUPLING distance vanishes (xif2 mu_to^2 = mu_from^2),
+    # which makes E = 1 but not K.  In every other regime it may be taken only for coinciding scales.
+    from .c01 import _make_operator
+    from ..pe import PERaise
+
+    fcomp = src.func(f"{OP}.compute")
+    n_short = 0
+    for order in ((2, 0), (4, 0), (2, 1)):
+        pes = PE(src)
+        integrated = []
+        pes.overrides[f"{OP}.integrate"] = lambda pe_, a, k, integrated=integrated: integrated.append(1)
+        for scheme in ("unvaried", "exponentiated", "expanded"):
+            for xif2 in ((Fraction(1),) if scheme == "unvaried" else (Fraction(2), Fraction(1, 2))):
+                for thr in (False, True):
+                    for q_to in (Fraction(100), Fraction(100) / xif2, Fraction(100) * xif2, Fraction(400)):
+                        inst = f"order={order},scheme={scheme},xif2={xif2},threshold={thr},mu2_from=100,mu2_to={q_to}"
+                        o = _make_operator(pes, src, order, 4, scheme, xif2, thr)
+                        o.attrs["q2_to"] = q_to
+                        del integrated[:]
+                        try:
+                            pes.apply(pes.getattr(o, "compute"), [], {})
+                        except PERaise as e:
+                            chk.fail("shortcut-never-drops-the-expanded-factor", fcomp.qname, f"compute raises {e} ({inst})", where=fcomp.where, instance=inst)
+                            continue
+                        n_short += 1
+                        factor = scheme == "expanded" and xif2 != 1 and not thr
+                        may_skip = q_to == 100 and not factor
+                        chk.decide(bool(integrated) or may_skip, "shortcut-never-drops-the-expanded-factor", fcomp.qname,
+                                   f"{inst}: compute returns the identity without integrating, but the operator is "
+                                   + ("K(a_s, ln xif2) times the evolution between the couplings, and K != 1 from NLO on whatever the coupling distance"
+                                      if factor else "the evolution between two different scales") + " - the varied and the central operator then differ at "
+                                   "relative O(a_s), not beyond the working order", where=fcomp.where, instance=inst, how="exhaustive PE of Operator.compute")
+    chk.floor("shortcut instances", n_short, 100)
     fc = src.func("eko.runner.commons.couplings")
     # evaluated with a recording Couplings class for the three schemes: the matching ratios handed to the couplings are the squared
     # ratios of the card, times xif^2 in the exponentiated scheme only
